@@ -354,6 +354,21 @@ pub fn check(case: &Case) -> (Stats, Vec<Failure>) {
                 message: format!("M6 ({rel} variant): re-normalising changes the request: {k0} -> {k1} -> {k2}"),
             });
         }
+        // M6'': a request in the legacy wire format (no `path_and_query_v2`: the raw URL travels only as
+        // `original` inside the normalised part) re-normalises to the same request
+        {
+            let mut legacy = vr.clone();
+            legacy.path_and_query = None;
+            let back = Request::rebuild_with_config(&built, &legacy);
+            let a = serde_json::to_string(&back.path_and_query_skipped).unwrap_or_default();
+            let b = serde_json::to_string(&vr.path_and_query_skipped).unwrap_or_default();
+            if a != b {
+                fails.push(Failure {
+                    class: "not-idempotent",
+                    message: format!("M6'' ({rel} variant): a legacy-format request (path_and_query_v2 absent) re-normalises to {a}, the current-format one to {b}"),
+                });
+            }
+        }
         match rel.as_str() {
             "M2" => {
                 // different path or different decoded parameters => the rule for u must not match v
